@@ -121,7 +121,7 @@ func c07Pool(quick bool) (pool []*c07Rule, rejected int) {
 	rec(0)
 	// the sparse part: every value of every slot (also the ones the dense part
 	// leaves out), with at most k slots present besides exception and important
-	k := 3
+	k := 4
 	if quick {
 		k = 2
 	}
